@@ -322,6 +322,18 @@ impl Node {
         });
     }
 
+    /// Key of an outstanding remote call: the whole reply pid, node name included, so that a message
+    /// addressed to a pid of some other node is never taken for the reply to a local call.
+    fn rpc_key(pid: &ExternalPid) -> String {
+        format!(
+            "{}.{}.{}.{}",
+            pid.node.as_str(),
+            pid.id,
+            pid.serial,
+            pid.creation
+        )
+    }
+
     async fn route_message(
         registry: &ProcessRegistry,
         pending_rpcs: &DashMap<String, oneshot::Sender<OwnedTerm>>,
@@ -338,7 +350,7 @@ impl Node {
                     } else {
                         #[cfg(feature = "verif-hooks")]
                         edp_client::verif::yield_point("node:route:before_rpc_remove").await;
-                        let pid_str = format!("{}.{}.{}", pid.id, pid.serial, pid.creation);
+                        let pid_str = Self::rpc_key(&pid);
                         if let Some((_key, sender)) = pending_rpcs.remove(&pid_str) {
                             let _ = sender.send(body);
                         }
@@ -663,10 +675,7 @@ impl Node {
         ]);
 
         let (tx, rx) = oneshot::channel();
-        let pid_str = format!(
-            "{}.{}.{}",
-            reply_to_pid.id, reply_to_pid.serial, reply_to_pid.creation
-        );
+        let pid_str = Self::rpc_key(&reply_to_pid);
         self.pending_rpcs.insert(pid_str.clone(), tx);
         #[cfg(feature = "verif-hooks")]
         edp_client::verif::yield_point("node:rpc:after_insert").await;
